@@ -73,7 +73,10 @@ class Factorial(Part):
             cases.append({"kind": "fullfact", "d": len(lv), "center": None, "levels": list(lv), "cseed": rng.randrange(1 << 30)})
         # level lists whose values are of mixed kinds: a categorical level next to numbers, an integer beyond 2**53 next to floats
         for values in ([['auto', 0.5, 1.0], [1.0, 2.0]], [[2 ** 53 + 1, 0.5], ['a', 'b', 'c']], [[0.5, 'off'], [3, 7.5, 2 ** 60]],
-                       [[1, 2.5, 'x'], ['lo', 'hi'], [10, 20]]):
+                       [[1, 2.5, 'x'], ['lo', 'hi'], [10, 20]],
+                       # a value named more than once in a level list: the combinations are those of the positions
+                       [[0.0, 0.5, 0.5, 1.0], [10, 20]], [[1, 1, 2], [3, 4, 4]], [[5, 5]], [[0, 1, 1]], [[2.5, 'a', 2.5, 'b', 'a'], [7]],
+                       [[1, 2], [0.25, 0.25, 0.25], [3, 3, 9]]):
             cases.append({"kind": "fullfact", "d": len(values), "center": None, "levels": [len(v) for v in values], "values": values,
                           "cseed": rng.randrange(1 << 30)})
         # generalized subset designs: level lists x reductions x complementary counts
@@ -93,7 +96,7 @@ class Factorial(Part):
         from artap import operators as ops
         rng = pyrandom.Random(case["cseed"])
         kind = case["kind"]
-        ev = {"ev": "design", "kind": kind, "n": case.get("n", 0), "d": case.get("d", 0), "k": 0, "m": [], "exact": True,
+        ev = {"ev": "design", "kind": kind, "n": case.get("n", 0), "d": case.get("d", 0), "k": 0, "m": [], "first": [], "exact": True,
               "dims_ok": True, "inbox": True, "exc": "", "supported": True, "levels": [], "ds": [], "ncomp": 0, "reduction": 0,
               "may_raise": False}
         if kind == "pb":
@@ -176,6 +179,7 @@ class Factorial(Part):
                 ev["exc"] = vs
                 return [ev]
             ev["levels"] = [len(v) for v in lists]
+            ev["first"] = [[level_index(x, lv) for x in lv] for lv in lists]
             ev["dims_ok"] = all(len(v) == d for v in vs)
             m = []
             for v in vs:
